@@ -206,3 +206,22 @@ Theorem phyclone_update_invariant_semi_adapted :
     (pg_update (gorders n) (gcden n) (gsup on) (q_semi on gt) gt (gdec n) (genc n on) (ess_rs thr) N (schedule n)).
 Proof. apply (pg_update_invariant_semi_adapted n on gam gt gt_pos gt_final (ess_rs thr) (ess_rs_symmetric thr) N (schedule n) (schedule_count n n_pos)). Qed.
 End PhyClone.
+
+(* the target premise is satisfiable for every positive gamma: the weights that jump to the final target at the last step.
+   With it, PhyClone's update (any of the three proposals, its criterion, its schedule) is invariant with no premise left
+   beyond gamma > 0. *)
+Theorem phyclone_update_invariant_closed (n : nat) (on : bool) (gam : list (list bool) -> Qc) (thr : Q) (N : nat) :
+  (1 <= n)%nat -> (forall t, 0 < gam t) ->
+  invariant (wlist gam (forests n on))
+    (pg_update (gorders n) (gcden n) (gsup on) (q_full on (gtarget n gam)) (gtarget n gam) (gdec n) (genc n on) (ess_rs thr) N (schedule n))
+  /\ invariant (wlist gam (forests n on))
+    (pg_update (gorders n) (gcden n) (gsup on) (q_semi on (gtarget n gam)) (gtarget n gam) (gdec n) (genc n on) (ess_rs thr) N (schedule n))
+  /\ (forall po : Qc, po < 1 -> (on = true -> 0 < po) -> (on = false -> po = 0) ->
+      invariant (wlist gam (forests n on))
+        (pg_update (gorders n) (gcden n) (gsup on) (q_boot po) (gtarget n gam) (gdec n) (genc n on) (ess_rs thr) N (schedule n))).
+Proof.
+  intros Hn Hg. split; [|split].
+  - apply (phyclone_update_invariant_fully_adapted n Hn on gam (gtarget n gam) (gtarget_pos n gam Hg) (gtarget_final n on gam Hg)).
+  - apply (phyclone_update_invariant_semi_adapted n Hn on gam (gtarget n gam) (gtarget_pos n gam Hg) (gtarget_final n on gam Hg)).
+  - intros po. apply (phyclone_update_invariant_bootstrap n Hn on gam (gtarget n gam) (gtarget_pos n gam Hg) (gtarget_final n on gam Hg)).
+Qed.
